@@ -390,7 +390,11 @@ func (g *G) Vector(depth int, max Cls) (string, Cls) {
 		name string
 		w    int
 	}
-	prods := []prod{{"selector", 3}}
+	selW := 3
+	if depth >= 2 {
+		selW = 1
+	}
+	prods := []prod{{"selector", selW}}
 	if !g.p.NoRangeFn {
 		prods = append(prods, prod{"rangefn", 3})
 	}
@@ -612,7 +616,10 @@ func (g *G) Query() (q string, typ string, cls Cls) {
 		s, c := g.Scalar(g.p.MaxDepth, R)
 		return s, "scalar", c
 	}
-	d := ir(t, 1, g.p.MaxDepth, "depth")
+	d := g.p.MaxDepth - pick(t, []int{0, 0, 0, 1, 1, 2, 3}, "depthdrop")
+	if d < 1 {
+		d = 1
+	}
 	if g.p.Focus != "" {
 		s, c := g.vectorProd(g.p.Focus, d, R)
 		return s, "vector", c
